@@ -289,6 +289,20 @@ def frame_violation(pre, post):
     return None
 
 
+_PATHLESS = []
+
+
+def unpeer_is_pathless():
+    """which transcription of NetworkService.unpeer applies, read off the RUNNING library: the shortest-path version
+    (OUnpeer; fixes 13b815d / 0d94156) or the rewrite of proposed_fixes/C08-6 that finds the peering from the service's
+    own service ports (OUnpeer6)"""
+    if not _PATHLESS:
+        import inspect
+        from fim.user.network_service import NetworkService
+        _PATHLESS.append('get_nodes_on_shortest_path' not in inspect.getsource(NetworkService.unpeer))
+    return _PATHLESS[0]
+
+
 # ----------------------------------------------------------------------------------------------
 class Removals(Stream):
     name = 'removals'
@@ -447,7 +461,7 @@ class Removals(Stream):
         elif k == 'disconnect':
             t = 'ODisconnect %d %d' % (ids[o['hids'][0]], idof(r.get('x')))
         elif k == 'unpeer':
-            t = 'OUnpeer %d %d' % (ids[o['hids'][0]], ids[o['hids'][1]])
+            t = '%s %d %d' % ('OUnpeer6' if unpeer_is_pathless() else 'OUnpeer', ids[o['hids'][0]], ids[o['hids'][1]])
         elif k == 'remove_interface':
             t = 'ORemoveInterface %d %d' % (ids[o['hids'][0]], nm(op[2]))
         elif k == 'remove_child':
